@@ -409,9 +409,11 @@ class RefResult:
     __slots__ = ('kind', 'code', 'payload', 'length', 'until_close')
 
 
-def ref_decode(data, method):
+def ref_decode(data, method, ignore_length=False):
     """Independent reading of RFC 7230 section 3.3.3 on a byte string that starts with a
-    well-formed head.  Returns kind in {'complete', 'incomplete', 'bad'}; for 'complete' the
+    well-formed head.  `ignore_length` (wpull --ignore-length) may only do one thing: skip the
+    Content-Length step, so that a length-delimited body is read until close; chunked framing
+    and the no-body rules are untouched by it.  Returns kind in {'complete', 'incomplete', 'bad'}; for 'complete' the
     status code, the transfer-decoded payload and the message length.  Written against the
     RFC text, not against wpull; used only on messages the generator marks well-formed."""
     r = RefResult()
@@ -492,7 +494,7 @@ def ref_decode(data, method):
                 break
         r.kind, r.payload, r.length = 'complete', bytes(out), pos + p
         return r
-    if cl:
+    if cl and not ignore_length:
         v = cl[0]
         if v.isdigit() or (v[:1] == b'+' and v[1:].isdigit()):
             n = int(v)
@@ -544,7 +546,7 @@ class ReactiveServer:
                 sh['feeders'].append(t)
 
 
-def real_session_sequence(exchanges, recorder_params=None, keep_alive=True):
+def real_session_sequence(exchanges, recorder_params=None, keep_alive=True, ignore_length=False):
     """exchanges: list of dicts {segs, eof, method, version, path}.  Runs the REAL
     Client/Session (and, when `recorder_params` is given, the REAL WARCRecorder
     listening to it) against a reactive in-memory server, strictly lock-step.
@@ -597,7 +599,8 @@ def real_session_sequence(exchanges, recorder_params=None, keep_alive=True):
             with net:
                 pool = ConnectionPool(resolver=fakenet.FakeResolver())
                 client = Client(connection_pool=pool,
-                                stream_factory=functools.partial(Stream, keep_alive=keep_alive))
+                                stream_factory=functools.partial(Stream, keep_alive=keep_alive,
+                                                                 ignore_length=ignore_length))
                 if recorder_params is not None:
                     from wpull.warc.recorder import WARCRecorder
                     recorder = WARCRecorder(recorder_params['filename'], params=recorder_params['params'])
@@ -708,6 +711,16 @@ def read_warc(path):
         records.append((fields, block))
         pos = end + 8 + n
     return records
+
+
+# (keep_alive, ignore_length): the options of wpull.protocol.http.stream.Stream
+OPTS = [(True, False), (True, True), (False, False), (False, True)]
+
+
+def relaxed_by_options(m, opts):
+    """The only effect the property allows the options to have on delimiting:
+    ignore_length turns a Content-Length-delimited body into read-until-close."""
+    return bool(opts[1]) and m.framing == 'length'
 
 
 def cuts_of(segs):
